@@ -89,7 +89,7 @@ CHECKS["C10"] = dict(category="translation_validation",
    design_ref="DESIGN.md §4.10", note=RESP_NOTE,
    technique="server->client round trips per generated program + executable Lean model of the client status switch")
 CHECKS["C18"] = dict(category="translation_validation",
-   text="A relation between two generated programs: every base spec of the parameter, JSON and response corpora is generated as written ($ref to schemas, parameters, responses, alias chains, allOf/oneOf members, a trailing allOf member with additionalProperties) and with every reference replaced by an inline copy of its target; both packages are driven with identical raw requests, JSON documents (valid and single-fault) and status codes, and their wire-level projections (dispatch, accept/reject with error class, re-encoded canonical JSON, written status / content type / header names / body kind, client arm) must be equal. No Lean theorem: the property relates two outputs of the generator, which is not modelled as a whole.",
+   text="Lean theorems allOf_ref_encodes_like_inline / allOf_ref_decodes_like_inline (codec model, every member schema without additionalProperties, every list of further members, every value / document): an allOf member by reference (an embedded struct in the generated type) and its inline copy (flattened fields) encode to the same JSON members and decode the same documents with the same errors and left-over keys, values corresponding by flattening. Everything else is a relation between two generated programs, validated: every base spec of the parameter, JSON and response corpora is generated as written ($ref to schemas, parameters, responses, alias chains, allOf/oneOf members, a trailing allOf member with additionalProperties) and with every reference replaced by an inline copy of its target; both packages are driven with identical raw requests, JSON documents (valid and single-fault) and status codes, and their wire-level projections (dispatch, accept/reject with error class, re-encoded canonical JSON, written status / content type / header names / body kind, client arm) must be equal. Beyond the allOf theorems the property relates two outputs of the generator, which is not modelled as a whole.",
    design_ref="DESIGN.md §4.18",
    note="Trusted: the harness's inlining transformation as the meaning of 'inline copy'; the reflection driver; wire-level projections. Members of a discriminated oneOf stay references (their names are the discriminator values). Anonymous bodies whose helper types collide or are not identifiers are recorded findings (KF-C01-nameCollision, KF-C01-hoistedRawName) with fixed witnesses.",
    technique="differential validation of reference form vs inlined form of the same spec (two generated packages, identical inputs)")
